@@ -40,6 +40,7 @@ func vrf_ite_int(c bool, a, b int) int    { panic("vrf intrinsic") }
 func vrf_ite_str(c bool, a, b string) string { panic("vrf intrinsic") }
 func vrf_strsuffix(s, suffix string) bool { panic("vrf intrinsic") }
 func vrf_strprefix(s, prefix string) bool { panic("vrf intrinsic") }
+func vrf_strcontains(s, sub string) bool  { panic("vrf intrinsic") }
 func vrf_now() int64                      { panic("vrf intrinsic") }
 func vrf_locks_held() int                 { panic("vrf intrinsic") }
 func vrf_uf_bool(name string, arg string) bool  { panic("vrf intrinsic") }
@@ -201,6 +202,14 @@ func vrf_now() int64 {
 func vrf_locks_held() int { return 0 }
 func vrf_strsuffix(s, suffix string) bool { return len(s) >= len(suffix) && s[len(s)-len(suffix):] == suffix }
 func vrf_strprefix(s, prefix string) bool { return len(s) >= len(prefix) && s[:len(prefix)] == prefix }
+func vrf_strcontains(s, sub string) bool {
+	for i := 0; i+len(sub) <= len(s); i++ {
+		if s[i:i+len(sub)] == sub {
+			return true
+		}
+	}
+	return false
+}
 func vrf_uf_bool(name string, arg string) bool  { return false }
 func vrf_uf_str(name string, arg string) string { return "" }
 func vrf_uf_u64(name string, arg string) uint64 { return 0 }
